@@ -109,6 +109,42 @@ def r2(ctx, rep):
     rep.check(nums == ["1"], "windowed-number-constant", f"the Number built in translate_windowed must be the constant `1` (ORDER BY 1 fallback); found {nums}", file=wf["file"], line=wf["l"], fn=wf["path"])
 
 
+def float_literal_conditions(nf):
+    """(identifiers, text) of every condition the construction of Literal::Float in lexer::number is control-dependent on:
+    enclosing `if` conditions, match scrutinees and arm guards; locals are expanded once through their initialisers."""
+    import guards
+    par = guards.parents(nf["body"])
+    sites = [n for n in walk(nf["body"]) if n.get("k") == "call" and show(n["f"]).endswith("Literal::Float")]
+    sites += [n for n in walk(nf["body"]) if n.get("k") == "path" and n["p"].endswith("Literal::Float") and par.get(id(n), {}).get("k") != "call"]
+    if len(sites) != 1:
+        return None
+    locs = {show(n["pat"]).replace("mut ", ""): n["init"] for n in walk(nf["body"]) if n.get("k") == "local" and n.get("init") is not None}
+    conds = []
+    cur = sites[0]
+    while id(cur) in par:
+        p = par[id(cur)]
+        if p.get("k") == "if" and p["c"] is not cur:
+            conds.append(p["c"])
+        if p.get("k") == "match":
+            conds.append(p["e"])
+            for a in p["arms"]:
+                if (a is cur or a.get("body") is cur) and a.get("guard") is not None:
+                    conds.append(a["guard"])
+        cur = p
+    idents, text = set(), []
+    for c in conds:
+        text.append(show(c, maxdepth=10))
+        for x in walk(c):
+            if x.get("k") == "path" and "::" not in x["p"]:
+                idents.add(x["p"])
+                if x["p"] in locs:
+                    idents |= {y["p"] for y in walk(locs[x["p"]]) if y.get("k") == "path" and "::" not in y["p"]}
+                    text.append(show(locs[x["p"]], maxdepth=10))
+            if x.get("k") == "mcall":
+                idents.add("." + x["m"] + "()")
+    return idents, " ; ".join(text)
+
+
 def r3(ctx, rep):
     rep.rule("C08.R3", "the lexer has no reachable silent numeric default", floor=5)
     syn = ctx.syn
@@ -125,25 +161,18 @@ def r3(ctx, rep):
                   detail={"bits": bits}, file=f["file"], line=f["l"], fn=f["path"])
     pb = syn.fn("lexer::parse_number_with_base", crate="prqlc_parser")
     rep.check(".at_most(max_digits)" in show_stmts(pb["body"], maxdepth=14), "based:at_most", "the digit count must be bounded by max_digits", file=pb["file"], line=pb["l"], fn=pb["path"])
-    # decimal numbers: i64, else f64, else fallback 0; the fallback must be dead by grammar
+    # decimal numbers: i64 first, then f64; a Float literal is built only for finite values of text with a fraction or exponent
     nf = syn.fn("lexer::number", crate="prqlc_parser")
-    chain = []
-    for n in walk(nf["body"]):
-        if n.get("k") == "if" and n["c"].get("k") == "let" and "num_str.parse" in show(n["c"]["e"]):
-            cur = n
-            while cur is not None and cur.get("k") == "if":
-                chain.append((show(cur["c"]["e"]) if cur["c"].get("k") == "let" else show(cur["c"]), show(tail_expr(cur["t"]))))
-                cur = cur.get("e")
-            chain.append((None, show(tail_expr(cur)) if cur is not None else None))
-            break
-    ok = [c for c, _ in chain] == ["num_str.parse()", "num_str.parse()", None] or (len(chain) == 3 and chain[0][1] == "Literal::Integer(i)" and chain[1][1] == "Literal::Float(f)")
-    rep.check(ok, "decimal:order", f"decimal literals must be tried as i64 first, then f64; found {chain}", file=nf["file"], line=nf["l"], fn=nf["path"])
-    # an all-digit literal beyond i64 falls through to the f64 branch and is rounded
-    if len(chain) >= 2:
-        c1 = chain[1][0] or ""
-        guarded = any(w in c1 for w in ("contains", "frac", "exp", "is_some"))
-        rep.check(guarded, "decimal:int-overflow-to-float", "the f64 branch of the decimal parser is taken for ANY text that fails i64 parsing, including all-digit literals beyond i64::MAX: "
-                  "`9223372036854775808` silently becomes the float 9.223372036854776e18 instead of an error", file=nf["file"], line=nf["l"], fn=nf["path"])
+    parses = sorted([n for n in walk(nf["body"]) if n.get("k") == "mcall" and n["m"] == "parse" and show(n["r"]) == "num_str"], key=lambda n: (n["l"], n.get("c", 0)))
+    tys = [n.get("tf") or "" for n in parses]
+    rep.check(len(tys) == 2 and "i64" in tys[0] and "f64" in tys[1], "decimal:order", f"decimal literals must be tried as i64 first, then f64; found parse::<{tys}>", file=nf["file"], line=nf["l"], fn=nf["path"])
+    conds = float_literal_conditions(nf)
+    rep.check(conds is not None, "decimal:float-site", "expected one construction of Literal::Float in lexer::number", file=nf["file"], line=nf["l"], fn=nf["path"])
+    if conds is not None:
+        idents, text = conds
+        rep.check(bool(idents & {"frac_part", "exp_part"}), "decimal:int-overflow-to-float", "the f64 branch of the decimal parser is taken for ANY text that fails i64 parsing, including all-digit literals beyond i64::MAX: "
+                  "`9223372036854775808` silently becomes the float 9.223372036854776e18 instead of an error (Literal::Float must depend on the fraction / exponent being present)",
+                  file=nf["file"], line=nf["l"], fn=nf["path"])
     # value_and_unit: fallback 1 on overflow is reachable (digits are unbounded)
     vu = syn.fn("lexer::value_and_unit", crate="prqlc_parser")
     fb = [n for n in walk(vu["body"]) if n.get("k") == "mcall" and n["m"] in ("unwrap_or", "unwrap_or_default") and "parse" in show(n["r"], maxdepth=8)]
@@ -166,8 +195,8 @@ def r4(ctx, rep):
                 fmt = lit_val(mm["a"][0])
     rep.check(fmt is not None and ":?" in fmt, "sql-float-format", f"Literal::Float must be printed with `{{:?}}` (keeps `.0`, so SQL sees a float, not an integer); found `{fmt}`", file=f["file"], line=f["l"], fn=f["path"])
     nf = syn.fn("lexer::number", crate="prqlc_parser")
-    txt = show_stmts(nf["body"], maxdepth=20)
-    guarded = "is_finite" in txt or "is_infinite" in txt
+    conds = float_literal_conditions(nf)
+    guarded = conds is not None and bool(conds[0] & {".is_finite()", ".is_infinite()", ".is_nan()"})
     rep.check(guarded, "finite-guard", "`num_str.parse::<f64>()` returns Ok(inf) for out-of-range decimals (1e999) and the lexer wraps it in Literal::Float without an is_finite test: "
               "the SQL text is `inf` and the formatter prints `inf`", file=nf["file"], line=nf["l"], fn=nf["path"])
 
